@@ -203,9 +203,17 @@ def random_program(rng, n_e, n_p, n_c, length, wrappers=None, p_measure=0.25):
     return prog
 
 
+ODD_WRAPPERS = [["Phase", "Phase"], ["Hadamard", "Hadamard"], ["PhaseDagger", "Identity", "PhaseDagger"],
+                ["SigmaX", "SigmaX", "SigmaX"], ["Phase"], ["Identity"], ["SigmaZ", "SigmaZ"], ["SigmaY", "SigmaY"],
+                ["Hadamard", "Phase", "Phase", "Hadamard"], ["PhaseDagger", "PhaseDagger"], ["Identity", "Identity"],
+                ["Phase", "Phase", "Phase"], ["SigmaY", "Hadamard", "SigmaY"]]
+
+
 def library_wrappers():
+    """gate words for OneQubitGateWrapper: the library's 24 Clifford words plus words the library itself never builds
+    (one gate repeated, identity padding, single gates, words equal to the identity)."""
     from graphiq.circuit import ops
-    return [[g.__name__ for g in w] for w in ops.one_qubit_cliffords()]
+    return [[g.__name__ for g in w] for w in ops.one_qubit_cliffords()] + [list(w) for w in ODD_WRAPPERS]
 
 
 def compile_traces(circuit, tid, rng, settings=(0, 1, 2), backends=("stabilizer", "dm"), meta=None):
